@@ -127,6 +127,7 @@ type VC struct {
 	exitVars    map[string]scopeVar
 	lemmaName   string
 	axiomsDone  map[string]bool
+	cellFns     map[string]*ssa.Function
 	lemmasUsed  map[string]bool
 }
 
